@@ -163,10 +163,24 @@ def run(repo: Repo, rep: Report, tier: str) -> None:
                             rec = _record_class(repo, c, s.field)
                             if rec is None:
                                 continue
+                            # a field of a row counts as read only when it is read off the row the key is being built for: the element of a loop /
+                            # comprehension over the list (reading it off one fixed row, `rows[0].f`, keys every row with that row's value)
+                            row_vars: set[str] = set()
+                            for part in br.region:
+                                for n in walk_local(part):
+                                    its = []
+                                    if isinstance(n, ast.For):
+                                        its.append((n.target, n.iter))
+                                    elif isinstance(n, (ast.ListComp, ast.SetComp, ast.GeneratorExp, ast.DictComp)):
+                                        its += [(g.target, g.iter) for g in n.generators]
+                                    for tgt_, it_ in its:
+                                        txt_ = norm(it_)
+                                        if txt_ == f"{var}.{s.field}" or txt_ == f"enumerate({var}.{s.field})":
+                                            row_vars |= {x.id for x in ast.walk(tgt_) if isinstance(x, ast.Name)}
                             region_attrs = set()
                             for part in br.region:
                                 for n in walk_local(part):
-                                    if isinstance(n, ast.Attribute):
+                                    if isinstance(n, ast.Attribute) and isinstance(n.value, ast.Name) and n.value.id in row_vars:
                                         region_attrs.add(n.attr)
                             for rf in _dataclass_fields(rec):
                                 key = f"CSE key reads {cname}.{s.field}[].{rf}"
@@ -463,6 +477,14 @@ def run(repo: Repo, rep: Report, tier: str) -> None:
                 extra = [c for c in br.classes if c not in ("IRArith", "IRDecider")]
                 rep.check(not extra, "C10-R7", f"{opt.short} merges only arithmetic/decider nodes",
                           f"merge candidates: {br.classes}", opt.loc(br.node))
+
+    # ---------------- R12/R13 ----------------------------------------------------------
+    from .shared import borrow as _borrow10b
+    _borrow10b(repo, rep, "C20", "C20-R6", "C10-R12", "the optimised build exposes the same named results as the plain one: the name table the planner receives is the one that was "
+               "re-pointed after each node-eliminating pass (not a copy taken before)", floor=2)
+    _borrow10b(repo, rep, "C07", "C07-R3", "C10-R13", "the optimised build keeps every wire it plans: spanning-tree routing lays input->input wires between sinks, which are different "
+               "wires from the output->input wire between the same two combinators", select=lambda o: "add_wire_connection" in o.construct, floor=1)
+
 
 
 def thorough(repo: Repo, rep: Report) -> None:
